@@ -36,8 +36,13 @@ def gen_cases(ctx, rng):
                         src.append({"at": t + 500 * L.MS, "close": True})
                     elif ender == "limit_data":
                         N = rng.choice([0, 5, 200])
-                        chain.insert(rng.range(0, len(chain)), L.tx("limit_data", name="d", bytes=N))
-                        pending = sum(e["n"] for e in src) > N and nwr > 1
+                        pos = rng.range(0, len(chain))
+                        chain.insert(pos, L.tx("limit_data", name="d", bytes=N))
+                        # the limit closes its stub as soon as N bytes went through: whatever is still to be handed to it then - a later
+                        # chunk, or the next piece of the same chunk when a slicer / bandwidth toxic upstream of it cuts chunks up - is
+                        # pending upstream of a dead end (known finding F7)
+                        split_upstream = any(x["type"] in ("slicer", "bandwidth") for x in chain[:pos])
+                        pending = sum(e["n"] for e in src) > N and (nwr > 1 or split_upstream)
                         src.append({"at": t + 500 * L.MS, "close": True})
                     else:
                         chain.insert(rng.range(0, len(chain)), L.tx("timeout", name="t", timeout=rng.choice([1, 30])))
